@@ -174,7 +174,7 @@ pub fn check() -> PropertyCheck {
         subs: vec![
             Box::new(Pbt {
                 name: "adversarial",
-                quick: 40_000,
+                quick: 100_000,
                 thorough: 3_000_000,
                 strat: adv_strat,
                 test: adv_test,
@@ -182,7 +182,7 @@ pub fn check() -> PropertyCheck {
             }),
             Box::new(Pbt {
                 name: "two-tracers",
-                quick: 20_000,
+                quick: 50_000,
                 thorough: 1_000_000,
                 strat: two_strat,
                 test: two_test,
